@@ -435,6 +435,8 @@ pop = st.one_of(
     st.sampled_from([["ev", "play_a"], ["ev", "play_b"], ["ev", "play_a_sync"], ["ev", "play_b_manual"], ["ev", "play_other"]]),
     st.sampled_from([["ev", "pause_k"], ["ev", "resume_k"], ["ev", "advance_k"], ["ev", "back_k"], ["ev", "stop_k"], ["ev", "stop_other"],
                      ["ev", "update_k"]]),
+    # the same from a mode with priority 100 (and the mode stopping and starting again)
+    st.sampled_from([["ev", "mplay_a"], ["ev", "mplay_a"], ["ev", "mplay_b"], ["ev", "mstop"], ["ev", "stop_ms"], ["ev", "start_ms"]]),
     st.tuples(st.just("time"), st.sampled_from([7, 41, 77, 203, 611, 1507])).map(list),
     st.tuples(st.just("time"), st.sampled_from([7, 41, 77, 203, 611, 1507])).map(list),
 )
@@ -472,12 +474,21 @@ def check_player(case):
         "stop_k": {"a": {"key": "K", "action": "stop"}},
         "stop_other": {"b": {"key": "O", "action": "stop"}},
     }
-    with Rig("shows17", patches={"shows": shows_cfg, "show_player": sp}) as rig:
+    msp = {
+        "mplay_a": {"a": dict(tok["a"], key="M", priority=3, loops=-1, events_when_stopped="p_stopped")},
+        "mplay_b": {"b": dict(tok["b"], key="M", loops=1, events_when_stopped="p_stopped")},
+        "mstop": {"a": {"key": "M", "action": "stop"}},
+    }
+    want_prio = {"K": 0, "O": 2, "M:a": 103, "M:b": 100}
+    with Rig("shows17", patches={"shows": shows_cfg, "show_player": sp}, mode_patches={"ms": {"show_player": msp}}) as rig:
         m = rig.machine
         ev = m.events
+        ev.post("start_ms")
+        rig.advance(0.01)
         counts = {"created": 0, "stopped": 0}
         from mpf.assets import show as showmod
         made = []
+        played = []
         orig_init = showmod.RunningShow.__init__
 
         def rec_init(self, *a, **kw):
@@ -493,8 +504,26 @@ def check_player(case):
                     if o[0] == "ev":
                         if o[1].startswith("play") and "K" in m.show_player.instances["_global"]["show_player"]:
                             classes.add("replacement-under-one-key")
+                        n_before = len(made)
                         ev.post(o[1])
                         rig.run_ready()
+                        # priority of what was started: the entry's priority plus the priority of the mode that played it,
+                        # the first time and every later time
+                        for inst in made[n_before:]:
+                            if o[1].startswith("mplay"):
+                                classes.add("played-from-mode")
+                                want = want_prio["M:" + o[1][-1]]
+                                if sum(1 for x in played if x == o[1]) >= 1:
+                                    classes.add("mode-entry-played-again")
+                            elif o[1] == "play_other":
+                                want = want_prio["O"]
+                            else:
+                                want = want_prio["K"]
+                            if inst.show_config.priority != want:
+                                v("show-priority-wrong", "show %s started by %s runs at priority %r, the entry's priority plus its "
+                                  "mode's priority is %r (entries played so far: %r)" % (
+                                      inst.show.name, o[1], inst.show_config.priority, want, played))
+                        played.append(o[1])
                     else:
                         rig.advance(o[1] / 1000.0)
                 except Exception as e:   # pylint: disable=broad-except
@@ -506,6 +535,7 @@ def check_player(case):
             if not vio:
                 ev.post("stop_k")
                 ev.post("stop_other")
+                ev.post("stop_ms")
                 rig.advance(case["sync_ms"] / 1000.0 + 1.5)
                 alive = [s for s in made if not s.stopped]
                 if alive:
